@@ -15,4 +15,19 @@ PROPS = {
              'that decode successfully',
         assumptions=['aliasing (decoded packet owns its data) is validated by the harness, not proved: the value model cannot express it'],
     ),
+    'C04': dict(
+        harness='treediff', args=['-prop', 'C04'], shards=dict(quick=4, thorough=16),
+        spec_ops=['tree spec'],
+        rule='every valid filter over levels {a,b,empty,+,#} (depth<=3 quick, 4 thorough) against every name over {a,b,empty}, both directions; '
+             'random sets of 1-3 filters/names; random deep (<=12 levels) multi-byte topics; distinct = distinct (filter,name) pairs / filters queried',
+        assumptions=['Go map iteration order is canonicalised by sorting result sets'],
+    ),
+    'C05': dict(
+        harness='treediff', args=['-prop', 'C05'], shards=dict(quick=4, thorough=16),
+        spec_ops=['tree spec'],
+        rule='exhaustive operation sequences over 6 topics x 2 values (45 ops; length 2 quick, 3 thorough) with every query after the sequence, '
+             'random histories up to 120/400 ops with queries interleaved; snapshot, aliasing and history-independence monitors on the real tree; '
+             'distinct = distinct exhaustive op sequences',
+        assumptions=['data-race freedom and atomicity rest on the mutex (fact F-lock) and the race detector, not on the Lean model'],
+    ),
 }
